@@ -49,6 +49,8 @@ class Engine(ExecMixin, CallMixin, EvalMixin):
         externs.install(self)
         import tokens
         tokens.install(self)
+        import chans
+        chans.install(self)
 
     # ------------------------------------------------------------------ types / leaves
     def K(self, t): return self.p.kind(t)
